@@ -195,6 +195,21 @@ CHECKS.update({
 
 NOT_YET = {}
 
+# coverage added after the first registration (appended to the claimed text)
+ADDED = {
+    'C01': 'A program whose result differs between the reused and a brand-new Interpreter is a violation (one Interpreter evaluates all build files of a project); every program has a wall-clock and memory budget.',
+    'C03': 'test(workdir:); every sequence of <= 3 add_project_(link_)arguments / add_global_(link_)arguments calls over the language sets {c}, {cpp}, {c, cpp}: which language receives which argument, compile and link.',
+    'C04': 'A unity family, and a tests family (6 ways a test can refer to something built x program/args/nested args/depends, tests and benchmarks) for meson-test-prereq.',
+    'C05': 'generator()-made headers and 59 link chains of 3-5 targets (header two or three link levels away from its user).',
+    'C07': 'A yielding option against a parent option of every other kind.',
+    'C08': 'Commands that make an override equal to the value it overrides.',
+    'C10': 'Injected I/O answers during the overlay copy (n-th copy fails) and for the patch program (cannot start); the following run without fault must prepare the subproject completely.',
+    'C12': '--slice over every subset of 8 tests, 3 of them non-parallel.',
+    'C13': 'An absolute library path through append_direct/extend_direct, alone and in two-element batches with every other argument.',
+    'C15': 'The same comparisons after setup --reconfigure (twice); an install project with every installable kind x 8 spellings of the install directory.',
+    'C17': 'Layer-B project line with entries that merely contain an addressed name; two source arrays on one line.',
+}
+
 
 def main():
     props = [json.loads(l) for l in open(os.path.join(VERIF, 'properties.jsonl'))]
@@ -213,7 +228,7 @@ def main():
             'evidence_file': 'evidence/%s.json' % pid,
             'replay_cmd_template': './check %s --replay {path}' % pid,
             'engine': c.get('engine', 'verif-py'),
-            'level_claimed': {'category': c['category'], 'text': c['text'], 'design_ref': c['design_ref']},
+            'level_claimed': {'category': c['category'], 'text': c['text'] + (' Added later: ' + ADDED[pid] if pid in ADDED else ''), 'design_ref': c['design_ref']},
             'level_note': c['note'],
             'technique': c['technique'],
         })
